@@ -28,9 +28,10 @@ import traceback
 from dataclasses import dataclass, field
 from typing import Any, Callable, Iterable, Optional
 
-from . import VERIF_DIR
+from . import REPO_DIR, VERIF_DIR
 
-EVIDENCE_DIR = os.path.join(VERIF_DIR, "evidence")
+# evidence/ only ever describes runs against /repo itself; runs against a scratch copy (self-tests) write elsewhere
+EVIDENCE_DIR = os.path.join(VERIF_DIR, "evidence" if os.path.realpath(REPO_DIR) == "/repo" else "out/evidence_scratch")
 REPLAY_DIR = os.path.join(VERIF_DIR, "replays")
 OUT_DIR = os.path.join(VERIF_DIR, "out")
 KNOWN_FILE = os.path.join(VERIF_DIR, "known_findings.json")
